@@ -906,7 +906,8 @@ fn cmd_c19(n: usize) -> (u64, Vec<String>) {
     let maker = ExpectationMaker::new(RuleRegistry::default());
     let outputs: Vec<Vec<u8>> = vec![b"".to_vec(), b"foo\n".to_vec(), b"foo \n".to_vec(), "foo\u{a0}\n".as_bytes().to_vec(), "foo\u{3000}\u{a0}\n".as_bytes().to_vec(), "\u{a0}\n".as_bytes().to_vec(),
         b"foo\t\n".to_vec(), b"a\nb\nc\n".to_vec(), b"no newline".to_vec(), b"\xff\xfe\n".to_vec(), b"\x1b[1mbold\x1b[0m\n".to_vec(), "\u{1f600} \n".as_bytes().to_vec(), b"\n\n".to_vec(),
-        "tr\u{e4}iling\u{2003}\n".as_bytes().to_vec(), b"x\r\n".to_vec()];
+        "tr\u{e4}iling\u{2003}\n".as_bytes().to_vec(), b"x\r\n".to_vec(),
+        (1..=10).map(|i| format!("l{i}\n")).collect::<String>().into_bytes(), (1..=100).map(|i| format!("l{i}\n")).collect::<String>().into_bytes()];
     let expectation_sets: Vec<Vec<&str>> = vec![vec![], vec!["foo"], vec!["bar"], vec!["bar\u{a0}"], vec!["a", "x", "c"], vec!["foo (?)", "zzz (*)"], vec!["foo* (glob)"]];
     let renderers: Vec<(&str, Box<dyn Renderer>)> = vec![("pretty", Box::new(PrettyColorRenderer::default())), ("pretty-mono", Box::new(PrettyMonochromeRenderer::new(PrettyColorRenderer::default()))),
         ("diff", Box::new(DiffRenderer::new())), ("json", Box::new(JsonRenderer::new(false))), ("yaml", Box::new(YamlRenderer::new()))];
@@ -956,6 +957,26 @@ fn cmd_c19(n: usize) -> (u64, Vec<String>) {
                 },
                 _ => {
                     if list.iter().all(|o| o.result.is_ok()) && *name == "diff" && !text.trim().is_empty() { why = Some(format!("diff rendering of passing tests is not empty: {text:?}")); }
+                    if *name == "diff" {
+                        // "contains every unexpected output line": each one verbatim (lossy text, without its line feed) as a `+` line
+                        for o in list.iter() {
+                            if let Err(TestCaseError::MalformedOutput(d)) = &o.result {
+                                for dl in &d.lines {
+                                    if let DiffLine::UnexpectedLines { lines } = dl {
+                                        for (_, l) in lines {
+                                            let t = String::from_utf8_lossy(l);
+                                            let t = t.strip_suffix('\n').unwrap_or(&t);
+                                            // escaped renderings are written differently: only plain printable lines are compared
+                                            if o.escaping.has_unprintable(t.as_bytes()) { continue; }
+                                            if !text.contains(&format!("\n+{t}\n")) && !text.contains(&format!("\n+{t} (no-eol)\n")) && why.is_none() {
+                                                why = Some(format!("diff rendering lacks the unexpected line {t:?}"));
+                                            }
+                                        }
+                                    }
+                                }
+                            }
+                        }
+                    }
                 }
             }
             if let Some(w) = why {
